@@ -21,7 +21,7 @@ RULE = ("connected netlists (a spanning chain over all modules plus random nets 
         "of them tight (radius 0.40-0.47 x the shorter side); trial counts 0 (use the initial centres), 1, 2, 5; the seed of the "
         "random start is drawn by Hypothesis and applied with random.seed() right before the call.  Oracle: the call returns; "
         "every movable module's disc (soft: centre; hard: centroid of its rectangles) lies inside the die (1e-9 x size); fixed "
-        "rectangles == originals; hard modules translated rigidly; areas and nets unchanged.  non-trivial = some movable disc has "
+        "rectangles == originals; hard modules translated rigidly; areas unchanged, nets as a plain Netlist reads them from the same document.  non-trivial = some movable disc has "
         "a diameter > 30% of the shorter side; distinct = distinct (design, trials, seed).")
 ASSUMPTIONS = [
     "every module is on some net and the netlist is connected (the tool's precondition); terminals only as fixed pins (on the die border)",
